@@ -219,6 +219,17 @@ def regen_facts():
     return []
 
 
+def build_clis(a, rundir):
+    """C17/C18: build seqls and seqinfo from /repo's working tree"""
+    out = []
+    for name in ("seqls", "seqinfo"):
+        rc, o = sh(["go", "build", "-tags", "verif", "-o", os.path.join(BUILD, name), "./cmd/" + name], cwd=REPO, env=GOENV)
+        if rc != 0:
+            log(o)
+            out.append(("build", f"go build ./cmd/{name}", o[-1500:]))
+    return out
+
+
 def build_racer(a, rundir):
     rdir = os.path.join(VERIF, "racer")
     shutil.copyfile(os.path.join(REPO, "go.sum"), os.path.join(rdir, "go.sum"))
@@ -249,6 +260,7 @@ def build_handles(a, rundir):
 
 props.HOOKS["build_handles"] = build_handles
 props.HOOKS["build_racer"] = build_racer
+props.HOOKS["build_clis"] = build_clis
 
 
 def gen_ops(pid, seed, n, thorough):
